@@ -10,27 +10,41 @@ package ios
 //vc:  assert[C09] at "s.writeMem()" @saveAfterAllAccepted accepted == old(accepted) + len(s.Changes)
 //vc:  set changesConfirmed = result == nil && accepted == old(accepted) + len(s.Changes) && strings.Contains(lastOutput, "[OK]")
 //vc:  ensures[C09] @nilOnlyIfSavedOK result == nil ==> changesConfirmed
+//vc:  ensures[C15] @noReloadPendingAfterSuccess result == nil ==> !s.reloadActive
 
 //vc:func (*State).ApplyCommands$1
 //vc:  requires[C11] !isCompareRun
+//vc:  assert[C15] at "configure terminal" @configModeUnderGuard s.reloadActive
+//vc:  invariant[C15] 1 "for _, chg := range s.Changes" s.reloadActive
+//vc:  ensures[C15] @guardCancelledAtEnd !s.reloadActive
 //vc:  invariant[C09] 1 "for _, chg := range s.Changes" accepted == old(accepted) + 1 + rangeindex && -1 <= rangeindex && rangeindex < len(s.Changes) && len(s.Changes) == old(len(s.Changes))
 //vc:  ensures[C09] @allChangesAccepted accepted == old(accepted) + len(s.Changes) && len(s.Changes) == old(len(s.Changes))
 //vc:func (*State).prepareDevice
 //vc:  requires[C11] !isCompareRun
 //vc:func (*State).writeMem
 //vc:  requires[C11] !isCompareRun
+//vc:  requires[C15] @saveAfterCancel !s.reloadActive
 //vc:func (*State).cmd
 //vc:  requires[C11] !isCompareRun
+//vc:  requires[C15] @changeUnderGuard s.reloadActive
+//vc:  init oneMinuteSeen = false
+//vc:  ensures[C15] @rearmedOnOneMinuteWarning oneMinuteSeen ==> rearmCount == old(rearmCount) + 1
+//vc:  ensures[C15] @guardStillArmed s.reloadActive
 //vc:  set accepted = accepted + 1
 //vc:  ensures[C09] accepted == old(accepted) + 1
 //vc:func (*State).sendReloadCmd
 //vc:  requires[C11] !isCompareRun
+//vc:  ensures[C15] @guardArmed s.reloadActive
 //vc:func (*State).cancelReload
 //vc:  requires[C11] !isCompareRun
+//vc:  ensures[C15] @guardCancelled !s.reloadActive
 //vc:func (*State).scheduleReload
 //vc:  requires[C11] !isCompareRun
+//vc:  ensures[C15] @guardArmed s.reloadActive
 //vc:func (*State).extendReload
 //vc:  requires[C11] !isCompareRun
+//vc:  set rearmCount = rearmCount + 1
+//vc:  ensures[C15] rearmCount == old(rearmCount) + 1 && s.reloadActive
 
 //vc:func (*State).checkDeviceName
 //vc:  set nameChecked = true
@@ -55,6 +69,18 @@ package ios
 // one reply is read and checked: banner removed, echo stripped, remainder empty or acceptable
 //vc:func (*State).cmd$1
 //vc:  ensures[C09] @replyCheckedValid lastRemainder == "" || validOut(ci, lastRemainder)
+//vc:  ensures[C15] @oneMinuteWarningRemembered (oneMinuteSeen ==> old(oneMinuteSeen) || needReload) && (old(needReload) ==> needReload)
 
 //vc:func (*State).writeMem
 //vc:  ensures[C09] @savedConfirmedByOK strings.Contains(lastOutput, "[OK]")
+
+// ---- C15: reload guard ----
+// oneMinuteSeen: a 'SHUTDOWN in 0:01:00' banner was recognised since the flag was cleared
+// rearmCount:    number of 'do reload in N' re-arms
+//vc:ghost var oneMinuteSeen bool
+//vc:ghost var rearmCount int
+
+//vc:func (*State).stripReloadBanner
+//vc:  set oneMinuteSeen = oneMinuteSeen || result1
+//vc:  ensures[C15] @oneMinuteRecognised !isnil(l) ==> result1 == regexp.MatchString("SHUTDOWN in 0?0:01:00", msg)
+//vc:  ensures[C15] oneMinuteSeen == (old(oneMinuteSeen) || result1)
